@@ -131,4 +131,17 @@ structure VtzObj where
   cachecomp : List (Option ICal.ZComp)
   deriving Repr, Inhabited
 
+/-- `dt.replace(fold=f)`: ValueError unless `f` is 0 or 1 -/
+def replaceFold (d : DtPy.Dt) (f : Int) : R DtPy.Dt :=
+  if f = 0 ∨ f = 1 then .ok { d with fold := decide (f ≠ 0) } else .error .ValueError
+
+/-- the `fileobj` argument of `tzical(...)`: a path (a `str`, opened with `open(path, 'r')`) or a stream (wrapped in `_nullcontext`);
+    `content` is what opening and `read()` produce — the text, or the exception kind they raise -/
+structure FileArg where
+  isPath : Bool
+  content : R (List Char)
+
+/-- `with <open(path) | _nullcontext(stream)> as fobj: fobj.read()` -/
+def FileArg.openRead (f : FileArg) : R (List Char) := f.content
+
 end RfcPy
